@@ -136,6 +136,16 @@ def trees(tier, seed):
                              op("max", "mx", [3, 4]), mk_leaf(a, "Aa", 1, gran),
                              mk_leaf(b, "Ab", 1, gran), mk_leaf(c, "C", 1, gran)],
                             tag=f"lt(max,leaf)/{i},{j},{k}")
+                # LessThan with a Min on either side: the shape the Python front-end
+                # emits for a task with two children (parent before both children)
+                yield T([op("objective", "obj", [1]), op("lessthan", "lt", [2, 3]),
+                         mk_leaf(a, "A", 1, gran), op("min", "mn", [4, 5]),
+                         mk_leaf(b, "B", 1, gran), mk_leaf(c, "C", 1, gran)],
+                        tag=f"lt(leaf,min)/{i},{j},{k}")
+                yield T([op("objective", "obj", [1]), op("lessthan", "lt", [2, 5]),
+                         op("min", "mn", [3, 4]), mk_leaf(a, "A", 1, gran),
+                         mk_leaf(b, "B", 1, gran), mk_leaf(c, "C", 1, gran)],
+                        tag=f"lt(min,leaf)/{i},{j},{k}")
                 # a leaf shared by two Min parents (STRL DAG)
                 yield T([op("objective", "obj", [1, 2]), op("min", "m1", [3, 4]),
                          op("min", "m2", [3, 5]), mk_leaf(a, "S", 1, gran),
@@ -504,4 +514,4 @@ def replay(path):
     from .. import strl as S
 
     exe = S.build_driver()
-    return generic_replay("C20", path, confirm_job, extra=(exe,))
+    return generic_replay("C20", path, confirm_job, extra=(exe,), item_job=job)
